@@ -103,6 +103,8 @@ def gen_cases(tier):
         yield ('alnumrow', a)
     for h in range(10):
         yield ('numrow', h)
+    yield ('ecitable',)
+    yield ('repeats',)
     # family 5
     for r in (1, 2) if q else (1, 2, 3):
         for idx in itertools.product(range(len(PARTS)), repeat=r):
@@ -206,6 +208,31 @@ def run_case(case, acc):
                 content = [(chr(0x61 + i) * sz, 4, enc) for i, (sz, enc) in enumerate(zip(sizes, encs))]
                 for kw in ({'eci': True, 'error': lvl, 'mask': 1}, {'eci': True, 'error': lvl, 'version': v, 'mask': 1}):
                     do_call(content, kw, acc, ('call', content, kw))
+    elif kind == 'ecitable':
+        # every encoding the ECI register (as typed into qrref.tables) knows, announced with eci=True: assignment number in the header
+        import codecs
+        for enc in sorted(T.ECI_NUM):
+            try:
+                codecs.lookup(enc)
+            except LookupError:
+                continue
+            for content in ('a', 'ab' * 9):
+                kw = {'encoding': enc, 'eci': True, 'mode': 'byte'}
+                try:
+                    content.encode(enc)
+                except (UnicodeError, LookupError):
+                    continue
+                do_call(content, kw, acc, ('call', content, kw))
+                acc.count('eci_table_rows')
+    elif kind == 'repeats':
+        # the same (mergeable) part two, three and four times, and a following single call (cached / aliased segments)
+        for p_ in PARTS + ['XY', '000', 'AB12', 'ab']:
+            for k in (2, 3, 4):
+                content = [p_] * k
+                do_call(content, {'micro': False}, acc, ('call', content, {'micro': False}))
+                do_call(content, {}, acc, ('call', content, {}))
+            if not isinstance(p_, tuple):
+                do_call(p_, {'micro': False}, acc, ('call', p_, {'micro': False}))
     elif kind == 'alnumrow':
         for b in T.ALNUM:
             for c in ('', '7'):
